@@ -42,7 +42,7 @@ RULE = (
 )
 ASSUMPTIONS = [
     "processing costs 0 virtual seconds: 'at most T of waiting in total' is checked as exact equality of the virtual elapsed time",
-    "lock contention between threads (lock wait counted in the budget) is explored under C12's thread harness, not here",
+    "lock contention: two real threads on one TCPNetworkClient under the baton scheduler (mc/vthreads.py, props/c12_threads.py), preemption bound 2 (thorough 3)",
     "plain TCP never returns a short read while more is queued; the TLS-like short-read transport is a separate configuration, run both on an emulated short-read socket and on the REAL blocking SSLStreamTransport against a stdlib peer (mc/tlsrig.py)",
 ]
 BOUNDS = {"quick": "<= 2 bursts for iterators, <= 3 bursts for single receives", "thorough": "same alphabet, spurious bound 3"}
@@ -314,7 +314,7 @@ def run_async_iter(cfg: dict) -> dict:
 
 def jobs(tier: str) -> list[dict]:
     parts = 48 if tier == "quick" else 96
-    return [{"part": p, "parts": parts, "tier": tier} for p in range(parts)] + [{"part": -1, "parts": 1, "tier": tier}] + real_tls_jobs(tier)
+    return [{"part": p, "parts": parts, "tier": tier} for p in range(parts)] + [{"part": -1, "parts": 1, "tier": tier}] + real_tls_jobs(tier) + _thread_jobs(tier)
 
 
 def _key(cfg: dict, bad: str) -> str:
@@ -323,7 +323,17 @@ def _key(cfg: dict, bad: str) -> str:
     return f"{cfg['subject']}/{bad}"
 
 
+def _thread_jobs(tier: str) -> list[dict]:
+    from . import c12_threads
+
+    return c12_threads.jobs_c11(tier)
+
+
 def run_job(job: dict) -> JobResult:
+    if job["part"] == "threads":
+        from . import c12_threads
+
+        return c12_threads.run_job(job)
     res = JobResult()
     if job["part"] == -2:
         run_real_tls_job(res)
@@ -386,6 +396,10 @@ def run_job(job: dict) -> JobResult:
 
 def replay(doc: dict) -> tuple[bool, str]:
     rp = doc["replay"]
+    if rp.get("part") == "threads":
+        from . import c12_threads
+
+        return c12_threads.replay(doc)
     cfg = rp["cfg"]
     if "sched" in cfg:
         cfg["sched"] = [tuple(x) for x in cfg["sched"]]
